@@ -15,6 +15,7 @@ import (
 	"fmt"
 	"io"
 	"math/rand"
+	"runtime"
 	"sort"
 	"sync"
 	"time"
@@ -55,6 +56,7 @@ type Net struct {
 	cut    map[string]bool // "a|b" with a<b
 	nextID int64
 	seq    int64
+	everLinked map[string]bool // W-NET addition: pairs that were direct peers at some time
 
 	MinLatency time.Duration
 	Jitter     time.Duration
@@ -69,6 +71,12 @@ type Net struct {
 	OnPanic func(node boson.Address, proto string, v interface{})
 	// OnHandlerError observes handler return values.
 	OnHandlerError func(node boson.Address, proto, stream string, err error)
+
+	// OrderedReset (W-NET addition, opt-in): a Reset issued by one end of a stream
+	// reaches the other end in order with the frames that end wrote before it
+	// (as on a TCP connection: data, then RST), instead of instantly. The local
+	// end and link-level resets (Unlink, ResetStreamsOf) stay immediate.
+	OrderedReset bool
 }
 
 func New(r *gosim.Run, seed int64) *Net {
@@ -100,6 +108,8 @@ func (n *Net) latency(from, to *Node) time.Duration {
 	return d
 }
 
+func sleepLatency(from, to *Node) { time.Sleep(from.net.latency(from, to)) }
+
 // Node is one endpoint: it is the p2p.Streamer / p2p.Service of a simulated node.
 type Node struct {
 	net  *Net
@@ -118,6 +128,14 @@ type Node struct {
 	// Blocked reports whether a peer is blocklisted (set by the world).
 	OnBlocklist func(peer boson.Address, d time.Duration, reason string)
 	status      p2p.NetworkStatus
+
+	// --- W-NET additions (see relay.go) ---
+	// Idx is the position of the node in the network (stable over ReplaceNode);
+	// Idx+1 is the runtime node label (runtime.GosimSetNode) of every goroutine
+	// that runs code of this node.
+	Idx   int
+	relay relayState
+	// --- end W-NET additions ---
 }
 
 func (n *Net) AddNode(addr boson.Address, mode aurora.Model) *Node {
@@ -125,6 +143,7 @@ func (n *Net) AddNode(addr boson.Address, mode aurora.Model) *Node {
 	nd := &Node{net: n, Addr: addr, Mode: mode, up: true, peers: map[string]p2p.Peer{}, streams: map[int64]*pipe{},
 		ctx: ctx, cancel: cancel, status: p2p.NetworkStatusAvailable}
 	n.mu.Lock()
+	nd.Idx = len(n.nodes) // W-NET addition
 	n.nodes = append(n.nodes, nd)
 	n.mu.Unlock()
 	return nd
@@ -153,6 +172,8 @@ func (n *Net) ReplaceNode(old *Node) *Node {
 	ctx, cancel := context.WithCancel(context.Background())
 	nd := &Node{net: n, Addr: old.Addr, Mode: old.Mode, up: true, peers: map[string]p2p.Peer{}, streams: map[int64]*pipe{},
 		ctx: ctx, cancel: cancel, status: p2p.NetworkStatusAvailable}
+	nd.Idx = old.Idx                      // W-NET addition
+	nd.relay.inheritIdentity(&old.relay) // W-NET addition: underlay / signed address survive a restart
 	n.mu.Lock()
 	for i, x := range n.nodes {
 		if x == old {
@@ -175,33 +196,86 @@ func (n *Net) Link(a, b *Node) error {
 	if !a.isUp() || !b.isUp() {
 		return ErrNodeDown
 	}
+	peerA := p2p.Peer{Address: a.Addr, Mode: a.Mode}
+	peerB := p2p.Peer{Address: b.Addr, Mode: b.Mode}
+	// --- W-NET addition: mirrors handshake.Handle (inbound side): the picker
+	// (kademlia) may refuse the peer before it is registered.
+	b.mu.Lock()
+	bn := b.notifier
+	b.mu.Unlock()
+	if bn != nil && !a.IsPeer(b.Addr) {
+		var ok bool
+		b.asNode(func() { ok = bn.Pick(peerA) })
+		if !ok {
+			return ErrPicker
+		}
+	}
+	// --- end W-NET addition
 	a.mu.Lock()
 	_, had := a.peers[b.Addr.String()]
-	a.peers[b.Addr.String()] = p2p.Peer{Address: b.Addr, Mode: b.Mode}
+	a.peers[b.Addr.String()] = peerB
 	aprot := append([]p2p.ProtocolSpec(nil), a.protocols...)
 	a.mu.Unlock()
 	b.mu.Lock()
-	b.peers[a.Addr.String()] = p2p.Peer{Address: a.Addr, Mode: a.Mode}
+	b.peers[a.Addr.String()] = peerA
 	bprot := append([]p2p.ProtocolSpec(nil), b.protocols...)
 	b.mu.Unlock()
 	if had {
 		return nil
 	}
-	for _, p := range bprot {
-		if p.ConnectIn != nil {
-			if err := p.ConnectIn(b.ctx, p2p.Peer{Address: a.Addr, Mode: a.Mode}); err != nil {
-				n.Unlink(a, b, "connectIn failed")
-				return err
-			}
-		}
+	n.noteLinked(a, b) // W-NET addition
+	// --- W-NET addition: libp2p.go handleIncoming / Connect store the signed
+	// address of a full node in the address book after the handshake.
+	if err := b.relay.putAddress(&a.relay); err != nil {
+		n.Unlink(a, b, "unable to persist peer in addressbook")
+		return err
 	}
-	for _, p := range aprot {
-		if p.ConnectOut != nil {
-			if err := p.ConnectOut(a.ctx, p2p.Peer{Address: b.Addr, Mode: b.Mode}); err != nil {
-				n.Unlink(a, b, "connectOut failed")
-				return err
+	if err := a.relay.putAddress(&b.relay); err != nil {
+		n.Unlink(a, b, "failed storing peer in addressbook")
+		return err
+	}
+	// --- end W-NET addition
+	var err error
+	// inbound side (libp2p.go handleIncoming): ConnectIn, then notifier.Connected
+	b.asNode(func() {
+		for _, p := range bprot {
+			if p.ConnectIn != nil {
+				if err = p.ConnectIn(b.ctx, peerA); err != nil {
+					return
+				}
 			}
 		}
+	})
+	if err != nil {
+		n.Unlink(b, a, "failed to process inbound connection notifier")
+		return err
+	}
+	// --- W-NET addition (libp2p.go handleIncoming, lines 405-463)
+	if bn != nil {
+		b.asNode(func() { err = bn.Connected(b.ctx, peerA, false) })
+		if err != nil {
+			n.Unlink(b, a, fmt.Sprintf("unable to signal connection notifier %s", err))
+			return err
+		}
+		b.asNode(func() {
+			bn.NotifyPeerState(p2p.PeerInfo{Overlay: peerA.Address, Mode: peerA.Mode.Bv.Bytes(), State: p2p.PeerStateConnectIn})
+		})
+	}
+	// --- end W-NET addition
+	// outbound side (libp2p.go Connect): ConnectOut; the caller (kademlia
+	// Connection) tells its topology about the peer (Kad.Outbound)
+	a.asNode(func() {
+		for _, p := range aprot {
+			if p.ConnectOut != nil {
+				if err = p.ConnectOut(a.ctx, peerB); err != nil {
+					return
+				}
+			}
+		}
+	})
+	if err != nil {
+		n.Unlink(a, b, "failed to process outbound connection notifier")
+		return err
 	}
 	return nil
 }
@@ -223,25 +297,39 @@ func (n *Net) Unlink(a, b *Node, reason string) {
 	b.mu.Unlock()
 	n.resetStreamsBetween(a, b)
 	if hadA {
-		for _, p := range aprot {
-			if p.DisconnectOut != nil {
-				_ = p.DisconnectOut(pa)
+		a.asNode(func() { // W-NET addition: callbacks run under the node's label
+			for _, p := range aprot {
+				if p.DisconnectOut != nil {
+					_ = p.DisconnectOut(pa)
+				}
 			}
-		}
-		if an != nil {
-			an.Disconnected(pa, reason)
-		}
+			if an != nil {
+				an.Disconnected(pa, reason)
+			}
+		})
 	}
 	if hadB {
-		for _, p := range bprot {
-			if p.DisconnectIn != nil {
-				_ = p.DisconnectIn(pb)
+		b.asNode(func() {
+			for _, p := range bprot {
+				if p.DisconnectIn != nil {
+					_ = p.DisconnectIn(pb)
+				}
 			}
-		}
-		if bn != nil {
-			bn.Disconnected(pb, "libp2p event")
-		}
+			if bn != nil {
+				bn.Disconnected(pb, "libp2p event")
+			}
+		})
 	}
+}
+
+// asNode runs f with the calling goroutine labelled as this node (W-NET
+// addition): goroutines and timers started by f inherit the label, which is
+// what node-scoped replacements of process globals key on.
+func (nd *Node) asNode(f func()) {
+	prev := runtime.GosimNode()
+	runtime.GosimSetNode(uint64(nd.Idx + 1))
+	defer runtime.GosimSetNode(prev)
+	f()
 }
 
 func (n *Net) resetStreamsBetween(a, b *Node) {
@@ -419,6 +507,7 @@ func (nd *Node) NewStream(ctx context.Context, address boson.Address, h p2p.Head
 	local, remote := nd.net.newPipe(nd, peer, protocol, stream, h)
 	hctx, cancel := context.WithCancel(peer.ctx)
 	go func() {
+		runtime.GosimSetNode(uint64(peer.Idx + 1)) // W-NET addition: handler runs as the remote node
 		defer cancel()
 		if nd.net.OnPanic != nil {
 			defer func() {
@@ -448,15 +537,7 @@ func (nd *Node) NewStream(ctx context.Context, address boson.Address, h p2p.Head
 	return local, nil
 }
 
-// NewRelayStream / NewConnChainRelayStream are provided by the relay layer in
-// worlds that run the real routetab; the base node only knows direct streams.
-func (nd *Node) NewRelayStream(ctx context.Context, address boson.Address, h p2p.Headers, protocol, version, stream string, midCall bool) (p2p.Stream, error) {
-	return nd.NewStream(ctx, address, h, protocol, version, stream)
-}
-
-func (nd *Node) NewConnChainRelayStream(ctx context.Context, target boson.Address, h p2p.Headers, protocol, version, stream string) (p2p.Stream, error) {
-	return nd.NewStream(ctx, target, h, protocol, version, stream)
-}
+// NewRelayStream / NewConnChainRelayStream / CallHandler / CallHandlerWithConnChain: see relay.go.
 
 // ---- streams ----
 
@@ -484,6 +565,7 @@ type pipe struct {
 	ab, ba   *half
 	mu       sync.Mutex
 	isReset  bool
+	resetBy  int // W-NET addition: side that called Reset, -1 = link level
 	resetCh  chan struct{}
 	headers  p2p.Headers
 }
@@ -510,13 +592,16 @@ func (n *Net) newPipe(a, b *Node, protocol, stream string, h p2p.Headers) (*endp
 	return &endpoint{p, 0}, &endpoint{p, 1}
 }
 
-func (p *pipe) reset() {
+func (p *pipe) reset() { p.resetFrom(-1) }
+
+func (p *pipe) resetFrom(side int) {
 	p.mu.Lock()
 	if p.isReset {
 		p.mu.Unlock()
 		return
 	}
 	p.isReset = true
+	p.resetBy = side
 	close(p.resetCh)
 	p.mu.Unlock()
 	p.forget()
@@ -535,6 +620,14 @@ func (p *pipe) wasReset() bool {
 	p.mu.Lock()
 	defer p.mu.Unlock()
 	return p.isReset
+}
+
+// resetOrderedFor reports (W-NET addition) whether the stream was reset by the
+// remote end of the given reader side and resets are delivered in order.
+func (p *pipe) resetOrderedFor(side int) bool {
+	p.mu.Lock()
+	defer p.mu.Unlock()
+	return p.isReset && p.net.OrderedReset && p.resetBy == 1-side
 }
 
 func (e *endpoint) halves() (w, r *half, from, to *Node) {
@@ -597,8 +690,13 @@ func (e *endpoint) Read(b []byte) (int, error) {
 	p := e.p
 	_, r, _, _ := e.halves()
 	for {
+		ordered := false
 		if p.wasReset() {
-			return 0, ErrReset
+			// W-NET addition: with OrderedReset the frames the remote wrote before
+			// its Reset are still delivered (at their delivery times)
+			if ordered = p.resetOrderedFor(e.side); !ordered {
+				return 0, ErrReset
+			}
 		}
 		r.mu.Lock()
 		now := time.Now()
@@ -615,12 +713,19 @@ func (e *endpoint) Read(b []byte) (int, error) {
 		var wait time.Duration = -1
 		if len(r.q) > 0 {
 			wait = r.q[0].at.Sub(now)
+		} else if ordered {
+			r.mu.Unlock()
+			return 0, ErrReset
 		} else if r.closed {
 			r.mu.Unlock()
 			return 0, io.EOF
 		}
 		r.mu.Unlock()
 		if wait >= 0 {
+			if ordered {
+				time.Sleep(wait)
+				continue
+			}
 			t := time.NewTimer(wait)
 			select {
 			case <-t.C:
@@ -672,7 +777,7 @@ func (e *endpoint) FullClose() error {
 }
 
 func (e *endpoint) Reset() error {
-	e.p.reset()
+	e.p.resetFrom(e.side)
 	return nil
 }
 
